@@ -34,6 +34,23 @@ var spsB = []byte{ // high, 1280x720
 	0x67, 0x64, 0x00, 0x1f, 0xac, 0xd9, 0x40, 0x50, 0x05, 0xbb, 0x01, 0x6c, 0x80, 0x00, 0x00, 0x03,
 	0x00, 0x80, 0x00, 0x00, 0x1e, 0x07, 0x8c, 0x18, 0xcb,
 }
+
+// vectors of mediacommon's own tests
+var h265VPS = []byte{0x40, 0x01, 0x0c, 0x01, 0xff, 0xff, 0x01, 0x60, 0x00, 0x00, 0x03, 0x00, 0x90, 0x00, 0x00, 0x03,
+	0x00, 0x00, 0x03, 0x00, 0x78, 0x99, 0x98, 0x09}
+var h265SPSA = []byte{0x42, 0x01, 0x01, 0x01, 0x60, 0x00, 0x00, 0x03, 0x00, 0x90, 0x00, 0x00, 0x03, 0x00, 0x00, 0x03,
+	0x00, 0x78, 0xa0, 0x03, 0xc0, 0x80, 0x10, 0xe5, 0x96, 0x66, 0x69, 0x24, 0xca, 0xe0, 0x10, 0x00,
+	0x00, 0x03, 0x00, 0x10, 0x00, 0x00, 0x03, 0x01, 0xe0, 0x80}
+var h265SPSB = []byte{0x42, 0x01, 0x01, 0x04, 0x08, 0x00, 0x00, 0x03, 0x00, 0x98, 0x08, 0x00, 0x00, 0x03, 0x00, 0x00,
+	0x5d, 0x90, 0x00, 0x50, 0x10, 0x05, 0xa2, 0x29, 0x4b, 0x74, 0x94, 0x98, 0x5f, 0xfe, 0x00, 0x02,
+	0x00, 0x02, 0xd4, 0x04, 0x04, 0x04, 0x10, 0x00, 0x00, 0x03, 0x00, 0x10, 0x00, 0x00, 0x03, 0x01, 0xe0, 0x80}
+var h265PPS = []byte{0x44, 0x1, 0xc1, 0x72, 0xb4, 0x62, 0x40}
+var h265IDR = []byte{0x26, 0x1, 0xaf, 0x8, 0x42, 0x23, 0x48, 0x8a, 0x43, 0xe2}
+var vp9KeyA = []byte{0x82, 0x49, 0x83, 0x42, 0x00, 0x77, 0xf0, 0x32, 0x34, 0x30, 0x38, 0x24, 0x1c, 0x19, 0x40, 0x18, 0x03, 0x40, 0x5f, 0xb4}
+var vp9KeyB = []byte{0x82, 0x49, 0x83, 0x42, 0x40, 0xef, 0xf0, 0x86, 0xf4, 0x04, 0x21, 0xa0, 0xe0, 0x00, 0x30, 0x70, 0x00, 0x00, 0x00, 0x01}
+var av1SeqA = []byte{8, 0, 0, 0, 66, 167, 191, 228, 96, 13, 0, 64}
+var av1SeqB = []byte{10, 11, 0, 0, 0, 66, 167, 191, 230, 46, 223, 200, 66}
+
 var knownParams = map[string]string{"avc1.42c028": "1920x1080", "avc1.64001f": "1280x720"}
 
 type childCfg struct {
@@ -43,6 +60,7 @@ type childCfg struct {
 	DurMS    int    `json:"dur_ms"`
 	Scenario string `json:"scenario"` // normal dupdts
 	Readers  int    `json:"readers"`
+	Codec    string `json:"codec,omitempty"` // h264 (default) h265 vp9 av1
 	Dir      string `json:"dir"`
 }
 
@@ -124,6 +142,17 @@ func runChild(cfg childCfg, resultPath string) {
 	a := &agg{res: res, seen: map[string]bool{}}
 
 	vtrack := &gohlslib.Track{Codec: &codecs.H264{SPS: append([]byte{}, spsA...), PPS: []byte{0x08}}, ClockRate: 90000}
+	switch cfg.Codec {
+	case "", "h264":
+	case "h265":
+		vtrack.Codec = &codecs.H265{VPS: h265VPS, SPS: h265SPSA, PPS: h265PPS}
+	case "vp9":
+		vtrack.Codec = &codecs.VP9{Width: 1920, Height: 804, Profile: 0, BitDepth: 8, ChromaSubsampling: 1}
+	case "av1":
+		vtrack.Codec = &codecs.AV1{SequenceHeader: av1SeqA}
+	default:
+		panic("bad codec")
+	}
 	atrack := &gohlslib.Track{Codec: &codecs.MPEG4Audio{Config: mpeg4audio.Config{Type: 2, SampleRate: 44100, ChannelCount: 2}}, ClockRate: 44100}
 	m := &gohlslib.Muxer{Tracks: []*gohlslib.Track{vtrack, atrack}}
 	segCount := 7
@@ -234,7 +263,7 @@ func writer(m *gohlslib.Muxer, vtrack, atrack *gohlslib.Track, cfg childCfg, gat
 	pts := int64(0)
 	sinceIDR := 0
 	for i := 0; time.Now().Before(deadline); i++ {
-		idr := useB || sinceIDR >= 15 || i == 0 || cfg.Scenario == "dupdts"
+		idr := useB || sinceIDR >= 15 || i == 0 || cfg.Scenario == "dupdts" || (cfg.Codec != "" && cfg.Codec != "h264")
 		var au [][]byte
 		change := false
 		if idr && i > 0 && r.Bool(1, 6) {
@@ -273,7 +302,28 @@ func writer(m *gohlslib.Muxer, vtrack, atrack *gohlslib.Track, cfg childCfg, gat
 			pts += frameDur
 		}
 		t := ntp.Add(time.Duration(thisPTS) * time.Second / 90000)
-		wr(func() error { return m.WriteH264(vtrack, t, thisPTS, au) })
+		switch cfg.Codec {
+		case "h265":
+			sps := h265SPSA
+			if useB {
+				sps = h265SPSB
+			}
+			wr(func() error { return m.WriteH265(vtrack, t, thisPTS, [][]byte{h265VPS, sps, h265PPS, h265IDR}) })
+		case "vp9":
+			fr := vp9KeyA
+			if useB {
+				fr = vp9KeyB
+			}
+			wr(func() error { return m.WriteVP9(vtrack, t, thisPTS, fr) })
+		case "av1":
+			sh := av1SeqA
+			if useB {
+				sh = av1SeqB
+			}
+			wr(func() error { return m.WriteAV1(vtrack, t, thisPTS, [][]byte{sh}) })
+		default:
+			wr(func() error { return m.WriteH264(vtrack, t, thisPTS, au) })
+		}
 		// audio keeps up with the video clock
 		for audioN*1024*90000/44100 <= thisPTS {
 			n := 1 + r.Intn(2)
@@ -324,13 +374,33 @@ type reader struct {
 	violInput                        map[string]string
 }
 
+// recorder notes whether the handler answered at all: Muxer.Handle leaves an unknown path
+// untouched (a net/http server would then send an empty 200); that is reported as status 0.
+type recorder struct {
+	*httptest.ResponseRecorder
+	answered bool
+}
+
+func (r *recorder) WriteHeader(code int) {
+	r.answered = true
+	r.ResponseRecorder.WriteHeader(code)
+}
+
+func (r *recorder) Write(b []byte) (int, error) {
+	r.answered = true
+	return r.ResponseRecorder.Write(b)
+}
+
 func (rd *reader) get(uri string) (int, string, string) {
 	req, err := http.NewRequest(http.MethodGet, "http://h/"+uri, nil)
 	if err != nil {
 		panic(err)
 	}
-	w := httptest.NewRecorder()
+	w := &recorder{ResponseRecorder: httptest.NewRecorder()}
 	rd.m.Handle(w, req)
+	if !w.answered {
+		return 0, "", ""
+	}
 	return w.Code, w.Header().Get("Content-Type"), w.Body.String()
 }
 
@@ -412,7 +482,9 @@ func (rd *reader) step() {
 		rd.count("multivariant", code)
 		if code == 200 {
 			rd.playlists200++
-			rd.violate(checkMultivariant(body, knownParams), "GET index.m3u8"+q+"\n"+body)
+			if rd.cfg.Codec == "" || rd.cfg.Codec == "h264" {
+				rd.violate(checkMultivariant(body, knownParams), "GET index.m3u8"+q+"\n"+body)
+			}
 		}
 	case 1: // media playlist, plain
 		rd.playlist(sid, "", "playlist")
@@ -522,51 +594,57 @@ func (rd *reader) playlist(sid, query, kind string) {
 		}
 	}
 	if rd.validator && rd.r.Bool(1, 3) {
-		rd.validate(p, input)
+		rd.validate(sid, p, input)
 	}
 }
 
-// validate fetches everything the playlist lists.  The gate stops the writer after at most the
-// Write call in flight, i.e. after at most one more rotation: everything but the head segment
-// (and its parts) must still be there.
-func (rd *reader) validate(p *mediaPL, input string) {
+// validate fetches what the playlist lists.  The playlist was obtained while the writer ran; the
+// gate then stops the writer, a second (quiescent) playlist tells which media sequence numbers
+// are still inside the window, and everything the first playlist listed that is still inside
+// the window must be fetchable with the proper content type.
+func (rd *reader) validate(sid string, p *mediaPL, input string) {
 	rd.gate.Lock()
 	defer rd.gate.Unlock()
 	if rd.closing.Load() {
 		return // Close removes everything; what was listed before it need not be there any more
+	}
+	code, _, body := rd.get(sid + "_stream.m3u8")
+	if code != 200 {
+		return
+	}
+	p2, err := parseMedia(body)
+	if err != nil {
+		return
 	}
 	rd.validated++
 	want := "video/mp4"
 	if rd.cfg.Variant == "mpegts" {
 		want = "video/MP2T"
 	}
-	fetch := func(u, what, ct string, mayExpire bool) {
+	fetch := func(u, what, ct string) {
 		code, got, _ := rd.get(u)
 		rd.fetches++
 		if code == 200 && got != ct {
 			rd.violate([]violation{{"C08:snapshot:listed-uri-content-type", fmt.Sprintf("%s %s has content type %q", what, u, got)}}, input)
 		}
-		if code != 200 && !mayExpire {
+		if code != 200 {
 			rd.violate([]violation{{"C08:snapshot:listed-uri-not-fetchable:" + what,
-				fmt.Sprintf("%s %s listed by the playlist returned %d right after", what, u, code)}}, input)
+				fmt.Sprintf("%s %s, listed by the playlist and still inside the window (media sequence now %d), returned %d", what, u, p2.MediaSeq, code)}}, input)
 		}
 	}
 	if p.Map != "" {
-		fetch(p.Map, "init", "video/mp4", false)
+		fetch(p.Map, "init", "video/mp4")
 	}
-	first := true
 	for _, s := range p.Segs {
-		if s.Gap {
+		if s.Gap || s.MSN < p2.MediaSeq {
 			continue
 		}
-		// the oldest listed media segment may have been evicted by the rotation in flight
-		fetch(s.URI, "segment", want, first)
+		fetch(s.URI, "segment", want)
 		for _, pt := range s.Parts {
-			fetch(pt.URI, "part", "video/mp4", first)
+			fetch(pt.URI, "part", "video/mp4")
 		}
-		first = false
 	}
 	for _, pt := range p.OpenParts {
-		fetch(pt.URI, "part", "video/mp4", false)
+		fetch(pt.URI, "part", "video/mp4")
 	}
 }
